@@ -383,7 +383,13 @@ class BehavioralRTLIRTypeCheckVisitorL2( BehavioralRTLIRTypeCheckVisitorL1 ):
       l_val = node.left._value
       r_val = node.right._value
       node._value = s.eval_const_binop( l_val, node.op, r_val )
-      node.Type = s.rtlir_getter.get_rtlir( node._value )
+      if node._is_explicit:
+        # An explicitly sized operand gives the result its width: the
+        # value wraps around like the BitsN the simulator computes
+        node._value = int( node._value ) & ( ( 1 << res_nbits ) - 1 )
+        node.Type = rt.Const( rdt.Vector( res_nbits ), None )
+      else:
+        node.Type = s.rtlir_getter.get_rtlir( node._value )
       assert isinstance( node.Type, rt.Const )
     except AttributeError:
       # Both sides are constant but the value cannot be determined statically
